@@ -395,4 +395,193 @@ theorem TauInv.wall {cur cur' : TKey} {P : List TKey} {st st' : TauSt} (h : TauI
 
 end inv
 
+/-! ### cursor arithmetic and the key prefixes of the loops -/
+
+theorem KLt_r_succ (i r : Nat) (key : TKey) : KLt key (i, none, r + 1) ↔ KLt key (i, none, r) ∨ key = (i, none, r) := by
+  rcases key with ⟨i', _ | s', m'⟩
+  · simp only [KLt, Prod.mk.injEq, true_and]; omega
+  · simp [KLt]
+
+theorem KLt_n_succ (i s n : Nat) (key : TKey) : KLt key (i, some s, n + 1) ↔ KLt key (i, some s, n) ∨ key = (i, some s, n) := by
+  rcases key with ⟨i', _ | s', m'⟩
+  · simp [KLt]
+  · simp only [KLt, Prod.mk.injEq, Option.some.injEq]; omega
+
+theorem KLt_irr (k : TKey) : ¬ KLt k k := by
+  rcases k with ⟨i', _ | s', m'⟩ <;> simp [KLt]
+
+theorem KLt_rs_fwd (i nr : Nat) (key : TKey) : KLt key (i, none, nr) → KLt key (i, some 0, 0) := by
+  rcases key with ⟨i', _ | s', m'⟩ <;> simp only [KLt, and_true, and_false, or_false, Nat.not_lt_zero] <;> omega
+
+theorem KLt_rs_bwd (e : EngIn) (T : Tabs) (i : Nat) (key : TKey) (hv : VK e T key) : KLt key (i, some 0, 0) → KLt key (i, none, T.nr) := by
+  rcases key with ⟨i', _ | s', m'⟩ <;> simp only [KLt, VK, and_true, and_false, or_false, Nat.not_lt_zero] at * <;> omega
+
+theorem KLt_ns_fwd (i s m : Nat) (key : TKey) : KLt key (i, some s, m) → KLt key (i, some (s + 1), 0) := by
+  rcases key with ⟨i', _ | s', m'⟩ <;> simp only [KLt, and_true, and_false, or_false, Nat.not_lt_zero] <;> omega
+
+theorem KLt_ns_bwd (e : EngIn) (T : Tabs) (i s : Nat) (key : TKey) (hv : VK e T key) :
+    KLt key (i, some (s + 1), 0) → KLt key (i, some s, e.topo.nSlots i) := by
+  rcases key with ⟨i', _ | s', m'⟩
+  · simp only [KLt, and_true]; omega
+  · simp only [KLt, VK, Nat.not_lt_zero, and_false, or_false] at *
+    rintro (h | ⟨rfl, h⟩)
+    · exact Or.inl h
+    · right; refine ⟨rfl, ?_⟩; omega
+
+theorem KLt_si_fwd (i ns : Nat) (key : TKey) : KLt key (i, some ns, 0) → KLt key (i + 1, none, 0) := by
+  rcases key with ⟨i', _ | s', m'⟩ <;> simp only [KLt, and_true, and_false, or_false, Nat.not_lt_zero] <;> omega
+
+theorem KLt_si_bwd (e : EngIn) (T : Tabs) (i : Nat) (key : TKey) (hv : VK e T key) : KLt key (i + 1, none, 0) → KLt key (i, some T.ns, 0) := by
+  rcases key with ⟨i', _ | s', m'⟩ <;> simp only [KLt, VK, and_true, and_false, or_false, Nat.not_lt_zero] at * <;> omega
+
+def PO (e : EngIn) (i : Nat) : List TKey := (List.range i).flatMap (tauKeysCell e)
+def PR (e : EngIn) (i r : Nat) : List TKey := PO e i ++ (List.range r).map (fun r => ((i, none, r) : TKey))
+def PS (e : EngIn) (i s : Nat) : List TKey :=
+  PR e i e.net.nReact ++ (List.range s).flatMap (fun s => tauKeysDiff e i s (e.topo.nSlots i))
+def PN (e : EngIn) (i s n : Nat) : List TKey := PS e i s ++ tauKeysDiff e i s n
+
+theorem PR_zero (e : EngIn) (i : Nat) : PR e i 0 = PO e i := by simp [PR]
+theorem PR_succ (e : EngIn) (i r : Nat) : PR e i (r + 1) = PR e i r ++ [(i, none, r)] := by
+  unfold PR; rw [List.range_succ, List.map_append, ← List.append_assoc]; rfl
+theorem PS_zero (e : EngIn) (i : Nat) : PS e i 0 = PR e i e.net.nReact := by simp [PS]
+theorem PN_zero (e : EngIn) (i s : Nat) : PN e i s 0 = PS e i s := by simp [PN, tauKeysDiff]
+theorem PN_succ_some (e : EngIn) (i s n j : Nat) (h : e.topo.nbr i n = some j) : PN e i s (n + 1) = PN e i s n ++ [(i, some s, n)] := by
+  unfold PN tauKeysDiff; rw [List.range_succ, List.filterMap_append, ← List.append_assoc]; simp [h]
+theorem PN_succ_none (e : EngIn) (i s n : Nat) (h : e.topo.nbr i n = none) : PN e i s (n + 1) = PN e i s n := by
+  unfold PN tauKeysDiff; rw [List.range_succ, List.filterMap_append]; simp [h]
+theorem PS_succ (e : EngIn) (i s : Nat) : PS e i (s + 1) = PN e i s (e.topo.nSlots i) := by
+  unfold PN PS; rw [List.range_succ, List.flatMap_append, ← List.append_assoc]; simp
+theorem PO_succ (e : EngIn) (i : Nat) : PO e (i + 1) = PS e i e.net.nSpecies := by
+  unfold PS PR PO; rw [List.range_succ, List.flatMap_append]; simp [tauKeysCell]
+
+
+section loops
+variable {e : EngIn} {T : Tabs} {L : Layout}
+
+theorem poissonChecked_val (o : Oracles) (cnt : Nat) (m : Rat) :
+    Ok (poissonChecked o cnt m) (fun p => (m ≤ 0 ∧ p.1 = 0 ∧ p.2 = cnt) ∨ (0 < m ∧ p.1 = o.pois cnt ∧ p.2 = cnt + 1)) := by
+  unfold poissonChecked
+  by_cases h : m ≤ 0
+  · rw [if_pos h]; exact Ok.pure (Or.inl ⟨h, rfl, rfl⟩)
+  · rw [if_neg h, if_pos (not_le.mp h)]; exact Ok.pure (Or.inr ⟨not_le.mp h, rfl, rfl⟩)
+
+/-- `mesh_nr[i*n_reactions+r] = v` -/
+theorem stored_wr_mnr (st : TauSt) (h1 : st.mnr.size = T.n * T.nr) {i r : Nat} (hi : i < T.n) (hr : r < T.nr) (v : Int) (cnt' : Nat) :
+    Ok (st.mnr.wr (Gen.nrIndex T.nr i r) v) (fun w => w.size = T.n * T.nr ∧
+      Stored T L { st with mnr := w, cnt := cnt' } (i, none, r) v ∧
+      ∀ key v', VK e T key → key ≠ (i, none, r) → Stored T L st key v' → Stored T L { st with mnr := w, cnt := cnt' } key v') := by
+  rw [nrIndex_nat]
+  refine Ok.mono (Vec.wr_nat st.mnr _ v (by rw [h1]; exact flat2_lt T.n T.nr i r hi hr)) (fun w h => ⟨h.1.trans h1, h.2.1, ?_⟩)
+  intro key v' hvk hne hs
+  rcases key with ⟨i', _ | s', m'⟩
+  · show w.get (i' * T.nr + m') = v'
+    have hne' : i' * T.nr + m' ≠ i * T.nr + r := by
+      intro hh
+      obtain ⟨e1, e2⟩ := flat2_inj hvk.2 hr hh
+      subst e1 e2; exact hne rfl
+    rw [h.2.2 _ hne']; exact hs
+  · exact hs
+
+/-- `mesh_nd[slot(i,s,n)] = v` -/
+theorem stored_wr_mnd (hL : LayoutOK T L e.topo.nSlots e.topo.nbr) (st : TauSt) (h2 : SlotOK T L e.topo.nSlots st.mnd)
+    {i s n : Nat} (hi : i < T.n) (hs : s < T.ns) (hn : n < e.topo.nSlots i) (a : SlotAddr) (ha : L.slot i s n = .ok a) (v : Int) (cnt' : Nat) :
+    Ok (st.mnd.wr a v) (fun w => SlotOK T L e.topo.nSlots w ∧
+      Stored T L { st with mnd := w, cnt := cnt' } (i, some s, n) v ∧
+      ∀ key v', VK e T key → key ≠ (i, some s, n) → Stored T L st key v' → Stored T L { st with mnd := w, cnt := cnt' } key v') := by
+  refine Ok.mono (SlotVec.wr_Ok v (h2 i s n hi hs hn a ha)) (fun w hrw => ⟨?_, ?_, ?_⟩)
+  · intro i' s' k' hi' hs' hk' b hb
+    rw [hrw b]
+    by_cases hba : b = a
+    · rw [if_pos hba]; exact Ok.pure trivial
+    · rw [if_neg hba]; exact h2 i' s' k' hi' hs' hk' b hb
+  · intro b hb
+    show w.rd b = .ok v
+    rw [hrw b, if_pos (Except.ok.inj (hb.symm.trans ha))]
+  · intro key v' hvk hne hst
+    rcases key with ⟨i', _ | s', m'⟩
+    · exact hst
+    · intro b hb
+      show w.rd b = .ok v'
+      rw [hrw b]
+      by_cases hba : b = a
+      · exfalso
+        subst hba
+        obtain ⟨e1, e2, e3⟩ := hL.slot_inj i' s' m' i s n b hvk.1 hvk.2.1 hvk.2.2 hi hs hn hb ha
+        subst e1 e2 e3; exact hne rfl
+      · rw [if_neg hba]; exact hst b hb
+
+/-- `Compute_nevt`: afterwards the scratch vectors hold, entry by entry, the table of `countsOfDraws` for the counts that
+`poissonCounts` makes of the `k` draws `o.pois cnt0 …` on the means `tauLeapMeans` -/
+theorem computeNevt_inv (hR : Refines e T L) (o : Oracles) (dt : Rat) (x : Vec Rat) (hx : x.size = T.n * T.ns)
+    (st : TauSt) (h1 : st.mnr.size = T.n * T.nr) (h2 : SlotOK T L e.topo.nSlots st.mnd) :
+    Ok (computeNevt T L o dt x st)
+      (fun st' => TauInv e T L o dt (absState T.ns x) st.cnt (T.n, none, 0) (tauKeys e) st') := by
+  let X := absState T.ns x
+  unfold computeNevt
+  have hkeys : tauKeys e = PO e T.n := by unfold tauKeys PO; rw [hR.n]
+  rw [hkeys]
+  have hstart : TauInv e T L o dt X st.cnt (0, none, 0) (PO e 0) st := by
+    refine ⟨h1, h2, ⟨0, [], rfl, by simp [PO], by simp [PO, drawsFrom, poissonCounts], fun key _ hlt => ?_⟩, fun k' hk' => by simp [PO] at hk'⟩
+    rcases key with ⟨i', _ | s', m'⟩ <;> simp [KLt] at hlt
+  refine Ok.forUpTo (fun i st' => TauInv e T L o dt X st.cnt (i, none, 0) (PO e i) st') hstart (fun i hi st1 hst1 => ?_)
+  -- reactions
+  rw [← PR_zero] at hst1
+  have hreac : Ok (forUpTo (fun r (st : TauSt) =>
+      T.reactionProp x i r >>= fun a => poissonChecked o st.cnt (a * dt) >>= fun p =>
+      st.mnr.wr (Gen.nrIndex T.nr i r) p.1 >>= fun v => .ok { st with mnr := v, cnt := p.2 }) T.nr st1)
+      (fun st' => TauInv e T L o dt X st.cnt (i, none, T.nr) (PR e i T.nr) st') := by
+    refine Ok.forUpTo (fun r st' => TauInv e T L o dt X st.cnt (i, none, r) (PR e i r) st') hst1 (fun r hr st2 hst2 => ?_)
+    refine Ok.bind (reactionProp_val hR x hx hi hr) (fun a ha => ?_)
+    refine Ok.bind (poissonChecked_val o st2.cnt (a * dt)) (fun p hp => ?_)
+    refine Ok.bind (stored_wr_mnr (e := e) (L := L) st2 hst2.mnr hi hr p.1 p.2) (fun w hw => Ok.pure ?_)
+    rw [PR_succ]
+    refine hst2.draw (i, none, r) p.1 hw.1 hst2.mnd hw.2.2 hw.2.1 (fun key _ h => (KLt_r_succ i r key).mp h)
+      (fun key h => (KLt_r_succ i r key).mpr (Or.inl h)) ((KLt_r_succ i r _).mpr (Or.inr rfl)) (KLt_irr _) ?_
+    rw [ha] at hp
+    exact hp
+  refine Ok.bind hreac (fun st2 hst2 => ?_)
+  rw [hR.layout.nSlots i hi, ok_bind]
+  have hst2' : TauInv e T L o dt X st.cnt (i, some 0, 0) (PS e i 0) st2 := by
+    rw [PS_zero, ← hR.nr]
+    exact hst2.shift (fun key hv => KLt_rs_bwd e T i key hv) (fun key => KLt_rs_fwd i T.nr key)
+  have hdiff : Ok (forUpTo (fun s st => forUpTo (fun n (st : TauSt) =>
+      L.nbr i n >>= fun nb =>
+      L.slot i s n >>= fun a =>
+      if nb.isSome then
+        diffusionPropC T L x i s n >>= fun pr => poissonChecked o st.cnt (pr * dt) >>= fun p =>
+        st.mnd.wr a p.1 >>= fun v => .ok { st with mnd := v, cnt := p.2 }
+      else st.mnd.wr a 0 >>= fun v => .ok { st with mnd := v }) (e.topo.nSlots i) st) T.ns st2)
+      (fun st' => TauInv e T L o dt X st.cnt (i, some T.ns, 0) (PS e i T.ns) st') := by
+    refine Ok.forUpTo (fun s st' => TauInv e T L o dt X st.cnt (i, some s, 0) (PS e i s) st') hst2' (fun s hs st3 hst3 => ?_)
+    rw [← PN_zero] at hst3
+    refine Ok.mono (Ok.forUpTo (fun n st' => TauInv e T L o dt X st.cnt (i, some s, n) (PN e i s n) st') hst3 (fun n hn st4 hst4 => ?_))
+      (fun st' hst' => by
+        rw [PS_succ]
+        exact hst'.shift (fun key hv => KLt_ns_bwd e T i s key hv) (fun key => KLt_ns_fwd i s _ key))
+    rw [hR.layout.nbr i n hi hn, ok_bind]
+    obtain ⟨a, ha, _⟩ := hR.layout.slot i s n hi hs hn
+    rw [ha, ok_bind]
+    cases hnb : e.topo.nbr i n with
+    | none =>
+      simp only [Option.isSome_none, Bool.false_eq_true, if_false]
+      refine Ok.bind (stored_wr_mnd hR.layout st4 hst4.mnd hi hs hn a ha 0 st4.cnt) (fun w hw => Ok.pure ?_)
+      rw [PN_succ_none e i s n hnb]
+      exact hst4.wall (i, some s, n) hst4.mnr hw.1 hw.2.2 hw.2.1 (fun key _ h => (KLt_n_succ i s n key).mp h)
+        (fun key h => (KLt_n_succ i s n key).mpr (Or.inl h)) (KLt_irr _) rfl
+    | some j =>
+      simp only [Option.isSome_some, if_true]
+      refine Ok.bind (diffusionPropC_val hR x hx hi hs hn) (fun pr hpr => ?_)
+      refine Ok.bind (poissonChecked_val o st4.cnt (pr * dt)) (fun p hp => ?_)
+      refine Ok.bind (stored_wr_mnd hR.layout st4 hst4.mnd hi hs hn a ha p.1 p.2) (fun w hw => Ok.pure ?_)
+      rw [PN_succ_some e i s n j hnb]
+      refine hst4.draw (i, some s, n) p.1 hst4.mnr hw.1 hw.2.2 hw.2.1 (fun key _ h => (KLt_n_succ i s n key).mp h)
+        (fun key h => (KLt_n_succ i s n key).mpr (Or.inl h)) ((KLt_n_succ i s n _).mpr (Or.inr rfl)) (KLt_irr _) ?_
+      rw [hpr] at hp
+      exact hp
+  refine Ok.mono hdiff (fun st3 hst3 => ?_)
+  rw [PO_succ, ← hR.ns]
+  exact hst3.shift (fun key hv => KLt_si_bwd e T i key hv) (fun key => KLt_si_fwd i T.ns key)
+
+end loops
+
 end Strengths
